@@ -16,7 +16,7 @@ M = {
          "            if x in cfg.assigned_somewhere:\n                if x not in ctx.locals:", "            if x in cfg.assigned_somewhere and x not in ctx.globals:\n                if x not in ctx.locals:", "R-C08.2"),
         ("dummy successors not examined", _cc,
          "    for succ in bb.successors + bb.dummy_successors:\n        for x, use_bb in cfg.live_before[succ].items():",
-         "    for succ in bb.successors:\n        for x, use_bb in cfg.live_before[succ].items():", "R-C08.3"),
+         "    for succ in bb.successors:\n        for x, use_bb in cfg.live_before[succ].items():", "R-C08."),
         ("locals computed from reachable blocks only", _cfg,
          "maybe_ass_before, (x for bb in self.bbs for x in stats[bb].assigned)", "maybe_ass_before, (x for bb in self.bbs if bb.reachable for x in stats[bb].assigned)", "R-C08.1"),
         ("benign: generic test spelled with a local", _cc,
